@@ -27,6 +27,8 @@ pub async fn insert_and_maybe_flush(
                 event.context_id
             );
             wal.append(WalEntry::from_event(&event)).await;
+            #[cfg(sneldb_verif)]
+            crate::verif_hooks::vp("st_wal_sent");
         }
     }
 
@@ -38,6 +40,8 @@ pub async fn insert_and_maybe_flush(
         "Inserting event into MemTable"
     );
     ctx.memtable.insert(event)?;
+    #[cfg(sneldb_verif)]
+    crate::verif_hooks::vp("st_inserted");
 
     // 3. If MemTable is full, flush and rotate
     if ctx.memtable.is_full() {
@@ -71,6 +75,8 @@ pub async fn insert_and_maybe_flush(
                 None,
             )
             .await?;
+        #[cfg(sneldb_verif)]
+        crate::verif_hooks::vpd("st_rotated", &current_segment_id.to_string());
 
         // Opportunistic pruning: every max_inflight/2 rotations
         let prune_every = std::cmp::max(1, ctx.passive_buffers.max_inflight() / 2);
